@@ -73,6 +73,10 @@ add("C10","E1 enum","exploration",
     "inv_odd_mod, inv_mod, InvMod, inv_mod2k(_vartime) for EVERY k in 0..=BITS, precomputed inverters, Int inversions, MontyForm / BoxedMontyForm / ConstMontyForm inv / invert / inverter objects and gcd / gcd_vartime (Uint, Odd<Uint>, Int with all four sign combinations, BoxedUint): EVERY (a, m) with m in 0..=257 and a in 0..2m (the invertibility boundary is enumerated completely there), m = s*2^k for every k with s in {1,3,generic,2^(BITS-k)-1}, products of two primes with chosen shared factors, a >= m, multiples of a factor; Uint<1,2,3,4,6,8,16(,32)>, BoxedUint 1..=33 limbs. some(x) iff gcd(a,m)=1 and x is THE inverse in [0,m); gcd equals the BigUint gcd; ct == vartime.",
     ASSUME + " Small moduli m <= 257 with all a < 2m are exhaustive; k of inv_mod2k is exhaustive.", "bounded-exhaustive enumeration (truly exhaustive on small moduli) on the real code against the extended-gcd reference", "DESIGN.md §3.C10")
 
+add("C19","E4 scripted RNG environment","exploration",
+    "The RNG is an environment whose every answer is scripted. Limb::random_mod for moduli < 2^16: EVERY 1-/2-byte answer (256 / 65536 scripts per modulus) - no value >= m and every v < m has exactly the same number of preimages (uniformity decided by counting, not statistics); Uint/BoxedUint random_mod with bits(m) <= 12: all low-bit answers x 3 high patterns, each v < m exactly once; multi-limb moduli: all-equal scripts decide the acceptance boundary exactly, all scripts of length 5 over an 8-word alphabet: range, provenance, fixed == boxed in value and stream position; random_bits for EVERY bit length 0..=BITS+2 on four streams (all-ones must give 2^bl-1, little-endian layout, errors exactly when documented, Uint == Int == BoxedUint) plus a counting argument for bit lengths <= 12; Random for Uint/Int/Wrapping/NonZero/Odd/ConstMontyForm; 2000/20000 ChaCha8 streams for range and width independence.",
+    ASSUME + " Uniformity for multi-limb moduli is NOT decided (2^64 answers per word): only range, acceptance boundary and width independence are.", "exhaustive enumeration of scripted RNG answers (environment-answer exploration) with exact preimage counting", "DESIGN.md §3.C19")
+
 NOT_YET = {}
 ALL = [f"C{i:02d}" for i in range(1,21)]
 import os, sys
